@@ -122,11 +122,11 @@ def int_records(rid, rnd):
     from dissect.cstruct import utils
 
     out = []
-    bits = rnd.choice([8, 16, 24, 32, 64, 128])
-    w = bits // 8
+    bits = rnd.choice([8, 16, 24, 32, 64, 128, 12, 4, 20, 33])      # a width in bits stands for the whole bytes that hold it
+    w = (bits + 7) // 8
     e = rnd.choice(ENDIANS)
-    lo, hi = -(1 << (bits - 1)), (1 << bits) - 1
-    v = rnd.choice([0, 1, -1, hi, lo, (1 << (bits - 1)) - 1, 1 << (bits - 1), rnd.randrange(lo, hi + 1), hi + 1, lo - 1])
+    lo, hi = -(1 << (8 * w - 1)), (1 << (8 * w)) - 1
+    v = rnd.choice([0, 1, -1, hi, lo, (1 << (8 * w - 1)) - 1, 1 << (8 * w - 1), rnd.randrange(lo, hi + 1), hi + 1, lo - 1])
     rec = {"id": rid, "kind": "pack", "v": A.pint(v), "bits": bits, "endian": e}
     try:
         helper = {8: utils.p8, 16: utils.p16, 32: utils.p32, 64: utils.p64}.get(bits) if rnd.random() < 0.5 else None
@@ -146,8 +146,9 @@ def int_records(rid, rnd):
     except Exception as ex:  # noqa: BLE001
         rec["obs"] = {"status": "error", "v": A.pint(0), "back": [], "exc": f"{type(ex).__name__}: {ex}"[:120]}
     out.append(rec)
-    sb = rnd.choice([16, 32, 64, 24, 128])
-    sv = rnd.choice([0, 1, (1 << sb) - 1, 1 << (sb - 1), rnd.randrange(0, 1 << sb)])
+    sb = rnd.choice([16, 32, 64, 24, 128, 12, 20])
+    sbw = 8 * ((sb + 7) // 8)
+    sv = rnd.choice([0, 1, (1 << sbw) - 1, 1 << (sbw - 1), rnd.randrange(0, 1 << sbw)])
     rec = {"id": rid + 2, "kind": "swap", "v": A.pint(sv), "bits": sb}
     try:
         fn = {16: utils.swap16, 32: utils.swap32, 64: utils.swap64}.get(sb) if rnd.random() < 0.5 else None
